@@ -16,6 +16,9 @@ impl Command {
     fn from_parser(mut parser: Parser) -> Result<Command, lexopt::Error> {
         let mut opts = Options::default();
         let mut args = Vec::new();
+        // A non-Unicode argument is only reported once the whole command line
+        // has been read, so that it does not preempt -c, -h, or -V.
+        let mut non_unicode = None;
         while let Some(arg) = parser.next()? {
             match arg {
                 Arg::Short('c') | Arg::Long("countries") => return Ok(Command::Countries),
@@ -41,13 +44,26 @@ impl Command {
                 Arg::Short(c) if c.is_ascii_digit() => {
                     let mut s = String::from_iter(['-', c]);
                     if let Some(v) = parser.optional_value() {
-                        s.push_str(&(v.string()?));
+                        match v.into_string() {
+                            Ok(v) => s.push_str(&v),
+                            Err(v) => {
+                                non_unicode.get_or_insert(v);
+                            }
+                        }
                     }
                     args.push(s);
                 }
-                Arg::Value(val) => args.push(val.string()?),
+                Arg::Value(val) => match val.into_string() {
+                    Ok(val) => args.push(val),
+                    Err(val) => {
+                        non_unicode.get_or_insert(val);
+                    }
+                },
                 _ => return Err(arg.unexpected()),
             }
+        }
+        if let Some(val) = non_unicode {
+            return Err(lexopt::Error::NonUnicodeValue(val));
         }
         Ok(Command::Run(opts, args))
     }
